@@ -126,7 +126,7 @@ def mutants(chk, prop, tier, wd, tape_files):
     rng = random.Random(common.seed())
     outs = []
     heavy = prop in ("C06", "C19")
-    per_start = int(os.environ.get("VERIF_MUTANT_SEEDS", "0")) or ((400 if heavy else 4000) if tier == "quick" else (4000 if heavy else 30000))
+    per_start = int(os.environ.get("VERIF_MUTANT_SEEDS", "0")) or ((400 if heavy else 4000) if tier == "quick" else (4000 if heavy else (12000 if prop == "C17" else 30000)))
     for (tapes, n) in tape_files:
         tag = os.path.basename(tapes)[6:-7]
         if tag not in ("DDL", "QueryStatement", "QS_From", "DML", "E12") or n == 0:
